@@ -122,6 +122,8 @@ SNIPPETS = [
     "x = a.clone(); y = x[torch.tensor([0])]; y += 1; out = x", "x = a.clone(); y = x[[0, 1]]; y += 1; out = x", "x = a.clone(); y = x.squeeze(); y += 1; out = x", "x = a.clone(); y = x.reshape(2, 3); y += 1; out = x",
     "out = a[:, w > 0]" if False else "out = a[:, torch.tensor([True, False, True])]", "g = a @ a.T; mk = torch.tensor([True, False]); out = g[mk][:, mk]",
     "x = torch.zeros(3, dtype=a.dtype); x[torch.tensor([True, False, True])] = v; out = x", "x = torch.zeros(3, 2, dtype=a.dtype); x[torch.tensor([False, True, True])] = a[:, :2]; out = x",
+    "out = list(a.stride()) + list(a.T.stride())", "out = torch.arange(6, dtype=a.dtype).as_strided((3, 2), (1, 3))", "out = a.reshape(-1).as_strided(a.T.shape, a.T.stride())",
+    "x = a.clone().reshape(-1); y = x.as_strided((2, 2), (1, 2)); y += 1; out = x", "out = a.reshape(-1).view(3, 2).T.contiguous().stride()[0]",
     "x = torch.zeros(4, dtype=a.dtype); x[torch.tensor([0, 2])] = 1.0; out = x", "x = torch.zeros(2, 3, dtype=a.dtype); x[:, [0, 2]] = v.unsqueeze(1); out = x",
     "x = torch.zeros(3, 2, dtype=a.dtype); x[torch.tensor([2, 0])] = a[:, :2].T[:2]; out = x", "x = torch.zeros(3, dtype=a.dtype); x[torch.tensor([1])] += 2.0; out = x",
     "x = torch.zeros(2, dtype=a.dtype); x[torch.topk(v, k=1, largest=False)[1]] = 1.0; out = x / 1", "x = torch.zeros(3, dtype=a.dtype); x[torch.topk(w, k=2, largest=False)[1]] = 1.0; out = x / 2",
